@@ -381,7 +381,11 @@ def run_case(case):
             fj = np.random.default_rng([case["seed"], 78, it]).normal(size=m)
             wantj = rmj.outflow(fj) / msh.areas
             res.count("short_lived_meshes")
-            if float(np.abs(Dj @ fj - wantj).max()) > tol * max(float(np.abs(wantj).max()), 1e-300) or float(np.abs(Lj - Dj @ Gj).max()) > tol * float(np.abs(Lj).max()):
+            Lrefj = rmj.laplacian_dense()
+            lin = msh.sites @ np.array([0.7, -0.4]) + 0.3
+            wantg = (lin[msh.edge_mesh.edges[:, 1]] - lin[msh.edge_mesh.edges[:, 0]]) / msh.edge_mesh.edge_lengths
+            if (float(np.abs(Dj @ fj - wantj).max()) > tol * max(float(np.abs(wantj).max()), 1e-300) or float(np.abs(Lj - Dj @ Gj).max()) > tol * float(np.abs(Lj).max())
+                    or float(np.abs(Lj - Lrefj).max()) > tol * float(np.abs(Lrefj).max()) or float(np.abs(Gj @ lin - wantg).max()) > 1e-11 * max(float(np.abs(wantg).max()), 1e-300)):
                 bad = it
                 break
             del msh, Dj, Gj, Lj, rmj
